@@ -131,6 +131,24 @@ def bytes_len(it, b):
 
 
 def ba_tobytes(it, ba):
+    if getattr(it, 'ROPES', False) and not ba.known() and len(ba) % 8 == 0:
+        # byte-aligned segments of known bits / opaque byte strings -> a byte-layout rope
+        from .rope import Rope
+        parts, pos, ok = [], 0, True
+        for s in ba.segs:
+            if pos % 8 or s.n % 8:
+                ok = False
+                break
+            if s.kind == 'k':
+                parts.append((K(bytes(int(s.val[i:i + 8], 2) for i in range(0, s.n, 8))), s.n // 8))
+            elif s.kind == 'b':
+                parts.append((s.val, s.n // 8))
+            else:
+                ok = False
+                break
+            pos += s.n
+        if ok:
+            return Rope(parts).simplify()
     if ba.known():
         pat = ba.pattern()
         pat += '0' * (-len(pat) % 8)
@@ -538,6 +556,8 @@ def val_method(it, v, name, args, kw, node):
             dflt = args[1] if len(args) > 1 else K(None)
             if isinstance(args[0], K) and all(not isinstance(o, tuple) for o in v.d):
                 return dflt
+            if getattr(it, 'INJECTIVE_KEYS', False):
+                return dflt         # distinct symbolic keys denote distinct values (collision-free hashing assumption of the caller)
             return Term('dict.get', v, args[0])
         if name == 'items':
             return ListV([ListV([v.keyobj.get(k, K(k)), val], tup=True) for k, val in v.d.items()])
